@@ -28,34 +28,34 @@ Inductive ipaddr := IpV4 (octets : list N) | IpV6 (octets : list N).
 
 (* mirrors `Message` (and the harness' canonical text form); uuids, strings and blobs are byte
    lists *)
-Inductive msg :=
-| MEntitySpawn (id : list N)
-| MEntityParented (entity_id parent_id : list N)
-| MEntityDelete (id : list N)
-| MComponentUpdated (id name data : list N)
-| MStandardMaterialUpdated (id material : list N)
-| MMeshUpdated (id url : list N)
-| MImageUpdated (id url : list N)
-| MAudioUpdated (id url : list N)
-| MPromoteToHost
-| MNewHost (ip : ipaddr) (port web_port max_transfer : N)
-| MRequestInitialSync
-| MFinishedInitialSync.
+Inductive wmsg :=
+| W_EntitySpawn (id : list N)
+| W_EntityParented (entity_id parent_id : list N)
+| W_EntityDelete (id : list N)
+| W_ComponentUpdated (id name data : list N)
+| W_StandardMaterialUpdated (id material : list N)
+| W_MeshUpdated (id url : list N)
+| W_ImageUpdated (id url : list N)
+| W_AudioUpdated (id url : list N)
+| W_PromoteToHost
+| W_NewHost (ip : ipaddr) (port web_port max_transfer : N)
+| W_RequestInitialSync
+| W_FinishedInitialSync.
 
-Definition msg_kind (m : msg) : mvariant :=
+Definition msg_kind (m : wmsg) : mvariant :=
   match m with
-  | MEntitySpawn _ => K_EntitySpawn
-  | MEntityParented _ _ => K_EntityParented
-  | MEntityDelete _ => K_EntityDelete
-  | MComponentUpdated _ _ _ => K_ComponentUpdated
-  | MStandardMaterialUpdated _ _ => K_StandardMaterialUpdated
-  | MMeshUpdated _ _ => K_MeshUpdated
-  | MImageUpdated _ _ => K_ImageUpdated
-  | MAudioUpdated _ _ => K_AudioUpdated
-  | MPromoteToHost => K_PromoteToHost
-  | MNewHost _ _ _ _ => K_NewHost
-  | MRequestInitialSync => K_RequestInitialSync
-  | MFinishedInitialSync => K_FinishedInitialSync
+  | W_EntitySpawn _ => K_EntitySpawn
+  | W_EntityParented _ _ => K_EntityParented
+  | W_EntityDelete _ => K_EntityDelete
+  | W_ComponentUpdated _ _ _ => K_ComponentUpdated
+  | W_StandardMaterialUpdated _ _ => K_StandardMaterialUpdated
+  | W_MeshUpdated _ _ => K_MeshUpdated
+  | W_ImageUpdated _ _ => K_ImageUpdated
+  | W_AudioUpdated _ _ => K_AudioUpdated
+  | W_PromoteToHost => K_PromoteToHost
+  | W_NewHost _ _ _ _ => K_NewHost
+  | W_RequestInitialSync => K_RequestInitialSync
+  | W_FinishedInitialSync => K_FinishedInitialSync
   end.
 
 (* ---- values -------------------------------------------------------------------- *)
@@ -82,24 +82,24 @@ Definition val_of_params (ip : ipaddr) (port web_port max_transfer : N) : val :=
 
 (* the value of field [f] of message [m]; [VUnit] (which inhabits no field type) for a field
    the variant does not have *)
-Definition msg_field (m : msg) (f : pfield) : val :=
+Definition msg_field (m : wmsg) (f : pfield) : val :=
   match m, f with
-  | MEntitySpawn id, P_id => VBytes id
-  | MEntityParented e _, P_entity_id => VBytes e
-  | MEntityParented _ p, P_parent_id => VBytes p
-  | MEntityDelete id, P_id => VBytes id
-  | MComponentUpdated id _ _, P_id => VBytes id
-  | MComponentUpdated _ n _, P_name => VBytes n
-  | MComponentUpdated _ _ d, P_data => val_of_blob d
-  | MStandardMaterialUpdated id _, P_id => VBytes id
-  | MStandardMaterialUpdated _ mat, P_material => val_of_blob mat
-  | MMeshUpdated id _, P_id => VBytes id
-  | MMeshUpdated _ u, P_url => VBytes u
-  | MImageUpdated id _, P_id => VBytes id
-  | MImageUpdated _ u, P_url => VBytes u
-  | MAudioUpdated id _, P_id => VBytes id
-  | MAudioUpdated _ u, P_url => VBytes u
-  | MNewHost ip p w t, P_params => val_of_params ip p w t
+  | W_EntitySpawn id, P_id => VBytes id
+  | W_EntityParented e _, P_entity_id => VBytes e
+  | W_EntityParented _ p, P_parent_id => VBytes p
+  | W_EntityDelete id, P_id => VBytes id
+  | W_ComponentUpdated id _ _, P_id => VBytes id
+  | W_ComponentUpdated _ n _, P_name => VBytes n
+  | W_ComponentUpdated _ _ d, P_data => val_of_blob d
+  | W_StandardMaterialUpdated id _, P_id => VBytes id
+  | W_StandardMaterialUpdated _ mat, P_material => val_of_blob mat
+  | W_MeshUpdated id _, P_id => VBytes id
+  | W_MeshUpdated _ u, P_url => VBytes u
+  | W_ImageUpdated id _, P_id => VBytes id
+  | W_ImageUpdated _ u, P_url => VBytes u
+  | W_AudioUpdated id _, P_id => VBytes id
+  | W_AudioUpdated _ u, P_url => VBytes u
+  | W_NewHost ip p w t, P_params => val_of_params ip p w t
   | _, _ => VUnit
   end.
 
@@ -118,7 +118,7 @@ Fixpoint nth_variant (idx : N) (l : list (mvariant * list (pfield * ty)))
   | x :: r => if idx =? 0 then Some x else nth_variant (N.pred idx) r
   end.
 
-Definition msg_to_val (m : msg) : val :=
+Definition msg_to_val (m : wmsg) : val :=
   match find_variant (msg_kind m) message_variants 0 with
   | Some (idx, fs) =>
     VEnum idx (match fs with
@@ -128,20 +128,20 @@ Definition msg_to_val (m : msg) : val :=
   | None => VUnit
   end.
 
-(* `bincode::serialize(&message)`; [None] only for a [msg] that is not a Rust value *)
-Definition encode (m : msg) : option bytes := enc message_ty (msg_to_val m).
+(* `bincode::serialize(&message)`; [None] only for a [wmsg] that is not a Rust value *)
+Definition encode (m : wmsg) : option bytes := enc message_ty (msg_to_val m).
 
 (* ---- back ------------------------------------------------------------------------ *)
 
 Definition blob_of_val (v : val) : option (list N) :=
   match v with
-  | VSeq l => omap (fun x => match x with VInt n => Some n | _ => None end) l
+  | VSeq l => all_some (fun x => match x with VInt n => Some n | _ => None end) l
   | _ => None
   end.
 
 Definition octets_of_val (v : val) : option (list N) :=
   match v with
-  | VArr l => omap (fun x => match x with VInt n => Some n | _ => None end) l
+  | VArr l => all_some (fun x => match x with VInt n => Some n | _ => None end) l
   | _ => None
   end.
 
@@ -162,14 +162,14 @@ Definition senv := list (sfield * val).
 Definition sint (e : senv) (f : sfield) : option N :=
   match assoc sfield_eqb f e with Some (VInt n) => Some n | _ => None end.
 
-Definition params_of_val (v : val) : option msg :=
+Definition params_of_val (v : val) : option wmsg :=
   match v with
   | VEnum 0 (VTuple vs) =>
     let e := combine (map fst sync_params_fields) vs in
     match assoc sfield_eqb S_ip e with
     | Some ipv =>
       match ip_of_val ipv, sint e S_port, sint e S_web_port, sint e S_max_transfer with
-      | Some ip, Some p, Some w, Some t => Some (MNewHost ip p w t)
+      | Some ip, Some p, Some w, Some t => Some (W_NewHost ip p w t)
       | _, _, _, _ => None
       end
     | None => None
@@ -178,25 +178,25 @@ Definition params_of_val (v : val) : option msg :=
   end.
 
 
-Definition build_msg (k : mvariant) (e : penv) : option msg :=
+Definition build_msg (k : mvariant) (e : penv) : option wmsg :=
   match k with
-  | K_EntitySpawn => id <- pbytes e P_id ;; Some (MEntitySpawn id)
-  | K_EntityParented => a <- pbytes e P_entity_id ;; b <- pbytes e P_parent_id ;; Some (MEntityParented a b)
-  | K_EntityDelete => id <- pbytes e P_id ;; Some (MEntityDelete id)
+  | K_EntitySpawn => id <- pbytes e P_id ;; Some (W_EntitySpawn id)
+  | K_EntityParented => a <- pbytes e P_entity_id ;; b <- pbytes e P_parent_id ;; Some (W_EntityParented a b)
+  | K_EntityDelete => id <- pbytes e P_id ;; Some (W_EntityDelete id)
   | K_ComponentUpdated =>
-    id <- pbytes e P_id ;; n <- pbytes e P_name ;; d <- pblob e P_data ;; Some (MComponentUpdated id n d)
+    id <- pbytes e P_id ;; n <- pbytes e P_name ;; d <- pblob e P_data ;; Some (W_ComponentUpdated id n d)
   | K_StandardMaterialUpdated =>
-    id <- pbytes e P_id ;; d <- pblob e P_material ;; Some (MStandardMaterialUpdated id d)
-  | K_MeshUpdated => id <- pbytes e P_id ;; u <- pbytes e P_url ;; Some (MMeshUpdated id u)
-  | K_ImageUpdated => id <- pbytes e P_id ;; u <- pbytes e P_url ;; Some (MImageUpdated id u)
-  | K_AudioUpdated => id <- pbytes e P_id ;; u <- pbytes e P_url ;; Some (MAudioUpdated id u)
-  | K_PromoteToHost => Some MPromoteToHost
+    id <- pbytes e P_id ;; d <- pblob e P_material ;; Some (W_StandardMaterialUpdated id d)
+  | K_MeshUpdated => id <- pbytes e P_id ;; u <- pbytes e P_url ;; Some (W_MeshUpdated id u)
+  | K_ImageUpdated => id <- pbytes e P_id ;; u <- pbytes e P_url ;; Some (W_ImageUpdated id u)
+  | K_AudioUpdated => id <- pbytes e P_id ;; u <- pbytes e P_url ;; Some (W_AudioUpdated id u)
+  | K_PromoteToHost => Some W_PromoteToHost
   | K_NewHost => v <- assoc pfield_eqb P_params e ;; params_of_val v
-  | K_RequestInitialSync => Some MRequestInitialSync
-  | K_FinishedInitialSync => Some MFinishedInitialSync
+  | K_RequestInitialSync => Some W_RequestInitialSync
+  | K_FinishedInitialSync => Some W_FinishedInitialSync
   end.
 
-Definition val_to_msg (v : val) : option msg :=
+Definition val_to_msg (v : val) : option wmsg :=
   match v with
   | VEnum idx p =>
     match nth_variant idx message_variants with
@@ -211,15 +211,15 @@ Definition val_to_msg (v : val) : option msg :=
    of bincode 1.3 use `allow_trailing_bytes`).  [None] is a decode error -- and, formally, also a
    decoded value that does not have the shape of its schema, which no input produces
    (SchemaProofs.dec_wt). *)
-Definition decode (bs : bytes) : option msg :=
+Definition decode (bs : bytes) : option wmsg :=
   match dec message_ty bs with
   | Some (v, _) => val_to_msg v
   | None => None
   end.
 
 (* stack-safe variants (extracted and run; equal to the above) *)
-Definition encode_fast (m : msg) : option bytes := enc_fast message_ty (msg_to_val m).
-Definition decode_fast (bs : bytes) : option msg :=
+Definition encode_fast (m : wmsg) : option bytes := enc_fast message_ty (msg_to_val m).
+Definition decode_fast (bs : bytes) : option wmsg :=
   match dec_fast message_ty bs with
   | Some (v, _) => val_to_msg v
   | None => None
@@ -237,13 +237,13 @@ Definition ip_ok (ip : ipaddr) : Prop :=
   end.
 
 (* [m] is a Rust value (strings: any bytes; the real type additionally guarantees UTF-8) *)
-Definition wf_msg (m : msg) : Prop :=
+Definition wf_msg (m : wmsg) : Prop :=
   match m with
-  | MEntitySpawn id | MEntityDelete id => uuid_ok id
-  | MEntityParented a b => uuid_ok a /\ uuid_ok b
-  | MComponentUpdated id n d => uuid_ok id /\ blob_ok n /\ blob_ok d
-  | MStandardMaterialUpdated id d => uuid_ok id /\ blob_ok d
-  | MMeshUpdated id u | MImageUpdated id u | MAudioUpdated id u => uuid_ok id /\ blob_ok u
-  | MNewHost ip p w t => ip_ok ip /\ p < 2 ^ 16 /\ w < 2 ^ 16 /\ t < 2 ^ 64
-  | MPromoteToHost | MRequestInitialSync | MFinishedInitialSync => True
+  | W_EntitySpawn id | W_EntityDelete id => uuid_ok id
+  | W_EntityParented a b => uuid_ok a /\ uuid_ok b
+  | W_ComponentUpdated id n d => uuid_ok id /\ blob_ok n /\ blob_ok d
+  | W_StandardMaterialUpdated id d => uuid_ok id /\ blob_ok d
+  | W_MeshUpdated id u | W_ImageUpdated id u | W_AudioUpdated id u => uuid_ok id /\ blob_ok u
+  | W_NewHost ip p w t => ip_ok ip /\ p < 2 ^ 16 /\ w < 2 ^ 16 /\ t < 2 ^ 64
+  | W_PromoteToHost | W_RequestInitialSync | W_FinishedInitialSync => True
   end.
